@@ -560,7 +560,9 @@ class Interp:
         for name in list(ex):
             if name.startswith("$"):
                 v = ex[name]
-                if name in ("$proc", "$i") or name.startswith("$h"):
+                # every iteration ghost is havocked at the cut; only the (immutable) iterated
+                # collection itself is kept
+                if name not in ("$S", "$L", "$whole", "$x", "$loops"):
                     ex[name] = self.fresh_like(v, "it%d" % k)
 
     def st_While(self, s):
@@ -733,6 +735,9 @@ class Interp:
         self.unsupported(e, "list literal")
 
     def ex_Dict(self, e):
+        hook = getattr(self.c, "dict_literal", None)
+        if hook is not None:
+            return hook(self.ctx, self, e)
         if not e.keys:
             ty = self.c.type_of_literal(e)
             return self.ctx.alloc(empty_dict(ty))
@@ -1168,6 +1173,8 @@ class Interp:
                 if gen.is_async:
                     self.unsupported(e)
                 it = ctx.deref(self.eval(gen.iter))
+                if hasattr(it, "comprehension") and len(e.generators) == 1:
+                    return it.comprehension(self, e, kind)
                 if isinstance(it, VSet):
                     x = z3.Const(fresh_name("cx"), it.ty.elem.sort)
                     member.append(z3.Select(it.t, x))
